@@ -16,7 +16,7 @@
 From Coq Require Import List NArith.
 From GV Require Import Base.Ints Gen.Math Gen.StepSM Model.StateMachine Proofs.SMInv Proofs.SMInvStep Proofs.SMRel
   Proofs.SMTheorems Proofs.SMInvActs Proofs.SMWitness Proofs.SMOnce Proofs.SMOnceRel Proofs.SMOnceStep Proofs.SMOnceHist
-  Proofs.SMOnceSign Proofs.SMOncePH Proofs.SMOnceCons Proofs.SMOnceFin.
+  Proofs.SMOnceSign Proofs.SMOncePH Proofs.SMOnceCons Proofs.SMOnceFin Proofs.SMOnceAfter.
 Import ListNotations.
 Local Open Scope N_scope.
 
@@ -176,6 +176,23 @@ Theorem C08Once_example_consider :
       OConsider [[7]; [8]] [] [[107]] false; OConsider [[7]; [8]] [] [] true ].
 Proof. exact ex_considers. Qed.
 Print Assumptions C08Once_example_consider.
+
+(** once the strategy's prevote has been signed in a round, the strategy is not asked about its prevote
+    again - neither ConsiderProposedBlocks nor ChooseProposedBlock - before the next round entrance:
+    the prevote choice is TAKEN at most once per round *)
+Theorem C08_no_prevote_request_after_prevote_signed : forall sg es a x b y c,
+  List.concat (run_events (sm0 sg) es) = a ++ x :: b ++ y :: c ->
+  is_sign_k KPv x = true -> is_prevote_ask y = true -> exists z, In z b /\ is_ent z = true.
+Proof. exact (fun sg es => no_prevote_ask_after_sign sg es). Qed.
+Print Assumptions C08_no_prevote_request_after_prevote_signed.
+
+(** non-vacuity: consider (not ready), choose at the timeout, the prevote is signed; a further proposed
+    header and its block data arrive afterwards and nothing more is asked *)
+Theorem C08Once_example_after_sign :
+  filter (fun o => is_prevote_ask o || is_sign_k KPv o) (List.concat (run_events (sm0 true) ex_after_hist)) =
+    [ OConsider [[7]] [[7]] [] false; OChoose [[7]]; OSignPrevote 1 0 [7] ].
+Proof. exact ex_no_ask_after_sign. Qed.
+Print Assumptions C08Once_example_after_sign.
 
 (** ** Finalize requests.
     Full statement: in one process lifetime at most one [OFinalizeReq] is made per height.
